@@ -29,6 +29,7 @@ import (
 	"strings"
 	"sync"
 	"sync/atomic"
+	"time"
 
 	api "github.com/LindsayBradford/crem/cmd/cremengine/engine/api"
 	"github.com/LindsayBradford/crem/pkg/logging/loggers"
@@ -36,6 +37,8 @@ import (
 )
 
 func init() { register("C16", runC16) }
+
+const c16Watchdog = 20 * time.Second
 
 const (
 	c16ApiDir      = "cmd/cremengine/engine/api"
@@ -355,6 +358,32 @@ func c16PutSubRejected(p *prng) c16Req {
 	}
 }
 
+// A request on which the handler itself panics today (non-string action value: `entry.Value.(string)` in
+// syntaxCheckPostedAttributes, before anything is changed).  It probes that the mutex is released when a handler panics:
+// with a non-deferred Unlock every later request would block for ever.  Whether it (still) panics is established on a
+// fresh engine at start-up; if it answers 400 instead it is used as an ordinary rejected write, otherwise not at all.
+var c16ProbeKind = "" // "panic" | "noop" | ""
+
+func c16ProbeReq(pu int) c16Req {
+	return c16Req{Kind: c16ProbeKind, Method: "PUT", Path: fmt.Sprintf("%s/model/subcatchment/%d", c16Base, pu), CT: "application/json",
+		Body: `[{"Name":"RiverBankRestoration","Value":5}]`, Class: "put-subcatchment-nonstring-value(" + c16ProbeKind + ")"}
+}
+
+func c16ClassifyProbe() {
+	e := c16NewEngine()
+	c16ProbeKind = "noop"
+	var st int
+	panicked, _ := protect(func() { st, _ = e.do(c16ProbeReq(c16PUs[0]), "setup") })
+	switch {
+	case panicked:
+		c16ProbeKind = "panic"
+	case st == 400:
+		c16ProbeKind = "noop"
+	default:
+		c16ProbeKind = ""
+	}
+}
+
 func c16PutTable(p *prng, full bool) c16Req {
 	var sb strings.Builder
 	sb.WriteString("SubCatchment, " + strings.Join(c16ActionTypes, ", ") + "\n")
@@ -439,7 +468,7 @@ func c16Read(p *prng) c16Req {
 }
 
 // one batch of N requests; mode decides how much the writes conflict
-func c16Batch(p *prng, n int) ([]c16Req, string) {
+func c16Batch(p *prng, n int, noProbe bool) ([]c16Req, string) {
 	mode := []string{"commuting", "conflicting", "mixed", "write-heavy"}[p.intn(4)]
 	reqs := make([]c16Req, 0, n)
 	perm := make([]int, len(c16PUs))
@@ -496,6 +525,9 @@ func c16Batch(p *prng, n int) ([]c16Req, string) {
 				r = c16Read(p)
 			}
 		}
+		if c16ProbeKind != "" && !noProbe && p.chance(0.06) {
+			r = c16ProbeReq(c16PUs[p.intn(len(c16PUs))])
+		}
 		reqs = append(reqs, r)
 	}
 	return reqs, mode
@@ -511,6 +543,8 @@ type c16Outcome struct {
 	FinalF []int
 	Panics []string
 }
+
+func c16Flush() { out.Flush() }
 
 func c16Who(i int) string { return "client-" + strconv.Itoa(i) }
 
@@ -546,7 +580,17 @@ func c16Concurrent(e *c16Engine, prefix []c16Req, reqs []c16Req, doer c16Doer) (
 		}(i)
 	}
 	close(start)
-	wg.Wait()
+	joined := make(chan struct{})
+	go func() { wg.Wait(); close(joined) }()
+	select {
+	case <-joined:
+	case <-time.After(c16Watchdog):
+		// not a timing assumption about the schedule: a batch takes milliseconds; this only turns a wedged mux into a report
+		emit(J{"kind": "oracle", "what": "requests still blocked " + c16Watchdog.String() + " after the batch was released (mutex never released / deadlock)",
+			"prefix": prefix, "requests": reqs})
+		c16Flush()
+		os.Exit(0)
+	}
 	// the order in which the mux logged the receipt of the requests
 	k := int(atomic.LoadInt64(&e.log.n))
 	var order []int
@@ -727,6 +771,7 @@ func runC16(args []string) {
 	}
 	c16ScenarioText = string(b)
 	c16Discover()
+	c16ClassifyProbe()
 	p := newPrng(0xC16)
 	c16MakeEncodings(p, 24)
 
@@ -746,7 +791,7 @@ func runC16(args []string) {
 
 	runTrial := func(t int, viaServer bool) {
 		n := 2 + p.intn(7) // 2..8 clients
-		reqs, mode := c16Batch(p, n)
+		reqs, mode := c16Batch(p, n, viaServer)
 		var prefix []c16Req
 		if p.chance(0.5) {
 			prefix = []c16Req{c16PutTable(p, true)}
@@ -777,11 +822,9 @@ func runC16(args []string) {
 			}
 		}
 		stats["writers_"+strconv.Itoa(writers)]++
-		for i, pn := range obs.Panics {
+		for _, pn := range obs.Panics {
 			if pn != "" {
-				stats["panics"]++
-				emit(J{"kind": "oracle", "what": "panic in a handler under concurrent requests: " + pn, "trial": t, "mode": mode,
-					"prefix": prefix, "requests": reqs, "panicking_request": i})
+				stats["panicking_requests"]++ // compared like any other outcome: the serial replay must panic in the same way
 			}
 		}
 
